@@ -526,3 +526,16 @@ M("C27", "resume swaps in a pending .new file before loading", "kill",
   [(BK, "        if not autosave_file.is_file():\n            raise ValueError", "        pending = autosave_file.with_suffix(\".new\")\n        if pending.is_file():\n            os.replace(pending, autosave_file)\n\n        if not autosave_file.is_file():\n            raise ValueError")], "SAVE-resume")
 M("C27", "resume removes the snapshot before loading it", "kill",
   [(BK, "        with open(autosave_file, \"rb\") as f:\n            impl: MPSBackendImpl = pickle.load(f)", "        data = autosave_file.read_bytes()\n        os.remove(autosave_file)\n        impl: MPSBackendImpl = pickle.loads(data)")], "SAVE-resume")
+M("C10", "truncation cut-off compares single values with the squared precision", "kill",
+  [("emu_mps/utils.py", "    acc = 0.0\n    for i in range(d.shape[0]):\n        acc += d[i].item()\n        if acc > squared_max_error:\n            return i\n    return 0",
+    "    above = torch.nonzero(d > squared_max_error)\n    if above.numel() == 0:\n        return 0\n    return int(above[0].item())")], "TRUNC-cutoff")
+M("C10", "twin: cut-off through cumsum", "twin",
+  [("emu_mps/utils.py", "    acc = 0.0\n    for i in range(d.shape[0]):\n        acc += d[i].item()\n        if acc > squared_max_error:\n            return i\n    return 0",
+    "    above = torch.nonzero(torch.cumsum(d, 0) > squared_max_error)\n    if above.numel() == 0:\n        return 0\n    return int(above[0].item())")])
+M("C22", "PCHIP extrapolates linearly outside the knots", "kill",
+  [(PT, "        t = xq - self.x[i]\n\n        p0, p1, p2, p3 = self._coeffs[i].unbind(-1)\n        return p0 + t * (p1 + t * (p2 + t * p3))",
+    "        dx = xq - self.x[i]\n        t = dx.clamp(min=0.0).minimum(self.x[i + 1] - self.x[i])\n\n        p0, p1, p2, p3 = self._coeffs[i].unbind(-1)\n        y = p0 + t * (p1 + t * (p2 + t * p3))\n        return y + (dx - t) * (p1 + t * (2.0 * p2 + 3.0 * t * p3))")], "PCHIP-eval")
+M("C22", "PCHIP interval lookup without right=True", "kill",
+  [(PT, "        i = torch.searchsorted(self.x, xq, right=True) - 1\n", "        i = torch.searchsorted(self.x, xq) - 1\n")], "PCHIP-eval")
+M("C22", "twin: expanded cubic", "twin",
+  [(PT, "        return p0 + t * (p1 + t * (p2 + t * p3))", "        return p0 + p1 * t + p2 * t * t + p3 * t * t * t")])
